@@ -186,9 +186,11 @@ def grammar_in_family(g):
 TEXT_LITS = ["a", "b", "xy", "0", "1", "c", "é", "-", ";"]
 BYTE_LITS = [b"\x01", b"A", b"\x80\xff", b"\x00"]
 CLASSES = ["abc", "ab", "01", "0123456789", "xyz"]
+SMALL_CLASSES = ["abc", "ab", "01", "xy"]
 
 
-def rand_leaf(rnd, flavour):
+def rand_leaf(rnd, flavour, classes=None):
+    classes = classes or CLASSES
     r = rnd.random()
     if flavour == "bits":
         return lit_bit(rnd.randint(0, 1))
@@ -201,41 +203,41 @@ def rand_leaf(rnd, flavour):
     if r < 0.75:
         return lit_text(rnd.choice(TEXT_LITS))
     lo, hi = rnd.choice([(1, 1), (1, 2), (1, 3), (2, 2), (0, 2), (1, INF), (0, INF)])
-    items = [(rnd.choice(CLASSES), lo, hi)]
+    items = [(rnd.choice(classes), lo, hi)]
     if rnd.random() < 0.3:
-        items.append((rnd.choice(CLASSES), 1, 1))
+        items.append((rnd.choice(classes), 1, 1))
     return regex(items)
 
 
-def rand_node(rnd, depth, nts, flavour, regex_ok=True):
+def rand_node(rnd, depth, nts, flavour, regex_ok=True, classes=None):
     r = rnd.random()
     if depth <= 0 or r < 0.28:
         if nts and rnd.random() < 0.45:
             return nt(rnd.choice(nts))
-        leaf = rand_leaf(rnd, flavour)
+        leaf = rand_leaf(rnd, flavour, classes)
         if leaf["k"] == "re" and not regex_ok:
             return lit_text(rnd.choice(TEXT_LITS))
         return leaf
     if r < 0.48:
-        return alt(*[rand_node(rnd, depth - 1, nts, flavour, regex_ok) for _ in range(rnd.randint(2, 3))])
+        return alt(*[rand_node(rnd, depth - 1, nts, flavour, regex_ok, classes) for _ in range(rnd.randint(2, 3))])
     if r < 0.74:
-        return cat(*[rand_node(rnd, depth - 1, nts, flavour, regex_ok) for _ in range(rnd.randint(2, 3))])
+        return cat(*[rand_node(rnd, depth - 1, nts, flavour, regex_ok, classes) for _ in range(rnd.randint(2, 3))])
     lo, hi = rnd.choice([(0, INF), (1, INF), (0, 1), (2, 2), (1, 3), (0, 2), (2, INF), (1, 2), (3, 3)])
-    return rep(rand_node(rnd, depth - 1, nts, flavour, regex_ok), lo, hi)
+    return rep(rand_node(rnd, depth - 1, nts, flavour, regex_ok, classes), lo, hi)
 
 
-def rand_grammar(rnd, flavour=None, regex_ok=True, computed=None, recursion=True):
+def rand_grammar(rnd, flavour=None, regex_ok=True, computed=None, recursion=True, classes=None):
     """A random grammar of the generated family (retries until grammar_in_family)."""
     flavour = flavour or rnd.choice(["text", "text", "text", "bytes", "bits"])
     for _ in range(200):
         k = rnd.randint(2, 4)
         nts = ["<n%d>" % i for i in range(1, k + 1)]
         rules = {}
-        rules["<start>"] = rand_node(rnd, 2, nts, flavour, regex_ok)
+        rules["<start>"] = rand_node(rnd, 2, nts, flavour, regex_ok, classes)
         for i, s in enumerate(nts):
             later = nts[i + 1:]
-            body = rand_node(rnd, 2, later, flavour, regex_ok)
-            fallback = rand_leaf(rnd, flavour)
+            body = rand_node(rnd, 2, later, flavour, regex_ok, classes)
+            fallback = rand_leaf(rnd, flavour, classes)
             if fallback["k"] == "re":
                 fallback = lit_text(chr(99 + i))
             if recursion and rnd.random() < 0.25:
@@ -306,3 +308,32 @@ def relaxed(g):
             m["ref"], m["lo"], m["hi"] = "", 1, INF
         return m
     return {"start": g["start"], "rules": {s: rx(n) for s, n in g["rules"].items()}, "flavour": g.get("flavour")}
+
+
+def rand_bits_grammar(rnd, total=8):
+    """A bit-level grammar all of whose words have exactly `total` bits: a sequence of fixed-width fields."""
+    widths = []
+    left = total
+    while left > 0:
+        w = rnd.randint(1, min(4, left))
+        widths.append(w)
+        left -= w
+    rules = {"<bit>": alt(lit_bit(0), lit_bit(1))}
+    parts = []
+    for i, w in enumerate(widths):
+        name = "<f%d>" % (i + 1)
+        opts = []
+        for _ in range(rnd.randint(1, 3)):
+            r = rnd.random()
+            if r < 0.4:
+                opts.append(cat(*[lit_bit(rnd.randint(0, 1)) for _ in range(w)]) if w > 1 else lit_bit(rnd.randint(0, 1)))
+            elif r < 0.7:
+                opts.append(rep(nt("<bit>"), w, w))
+            else:
+                k = rnd.randint(0, w - 1)
+                xs = [lit_bit(rnd.randint(0, 1)) for _ in range(k)] + [rep(nt("<bit>"), w - k, w - k)]
+                opts.append(cat(*xs) if len(xs) > 1 else xs[0])
+        rules[name] = alt(*opts) if len(opts) > 1 else opts[0]
+        parts.append(nt(name))
+    rules["<start>"] = cat(*parts) if len(parts) > 1 else parts[0]
+    return {"start": "<start>", "rules": rules, "flavour": "bits"}
